@@ -11,7 +11,7 @@ T: API histories (insert call/return of every thread, then contains/find/size/it
    spec/TupleSetAbs.tla.  A history TLC rejects is the VIOLATION."""
 import os, subprocess, random, re, json, time
 from .. import build, tlc, graphwalk, tracecheck, known
-from ..common import workdir, seed, Result, SPEC, HARNESS, BUILD, NCPU
+from ..common import workdir, seed, Result, SPEC, HARNESS, BUILD
 from ..evidence import finish
 
 PID = "C27"
@@ -317,11 +317,8 @@ def real_view(line):
             "tree_levels": int(f[12]), "tree": f[13]}
 
 def views_equal(m, r):
-    keys = ["rootodd", "firstodd", "firstOffset", "fpos", "pts", "ip", "res", "tree", "tree_levels"]
-    if not m["rootodd"]:
-        keys += ["levels", "offset"]          # while the root is locked levels/offset are being rewritten: compared too
-    else:
-        keys += ["levels", "offset"]
+    # levels/offset are compared also while the root is locked (the model rewrites them in the same step as the code)
+    keys = ["rootodd", "firstodd", "firstOffset", "fpos", "pts", "ip", "res", "tree", "tree_levels", "levels", "offset"]
     return all(m[k] == r[k] for k in keys), [k for k in keys if m[k] != r[k]]
 
 def replay(res, wd, cfg, drv, max_walks=None):
@@ -349,7 +346,6 @@ def replay(res, wd, cfg, drv, max_walks=None):
         mismatch = None
         if h["err"]:
             mismatch = "schedule not executable on the real object: " + h["err"]
-        body = [s for s in h["states"] if not s.startswith("S -1 ")]
         first_line = [s for s in h["states"] if s.startswith("S 0 ")]
         seq = first_line + [s for s in h["states"] if not s.startswith("S 0 ") and not s.startswith("S -1 ")]
         for k, line in enumerate(seq):
